@@ -10,6 +10,37 @@ _NOTE = ("Trusted base: the Python grammar/ast module; the canonicaliser (framel
          "numerical behaviour. assert is FRAME's rejection mechanism (python -O voids reject clauses).")
 
 CLAIMED = {
+    "C01": (
+        "Static decision that an accepted die tiles: in Die.__init__ every write of a region list is followed on all paths by "
+        "the self-check (found by role); the self-check asserts inside-the-die (both corners, both axes), non-overlap for all "
+        "unordered pairs and |area sum - die area| < tolerance over all four lists, all tolerance-aware; the reader refuses the "
+        "nine ill-formed classes; (x,y,w,h,tag) positions agree across reader/writers and parsed regions are stored untouched; "
+        "INDEX-OF typing of the Hanan-grid code (column index only into _x / second level of the cell matrix ...); x/y mirror "
+        "symmetry of gather_boundaries, the region expansion and the chosen ground rectangle. Not decided: that the greedy "
+        "cover never fails on a valid die for combinatorial reasons; round-off magnitude.",
+        _NOTE, "CFG must-pass + obligation inventory via dominating facts + INDEX-OF kind typing + MIRROR", "DESIGN.md 6/C01"),
+    "C02": (
+        "Static decision that refinement only redistributes split() outputs of the parent's own rectangle (both halves reach the "
+        "result, popped cells are kept or replaced, results built from the whole work list, no geometry writes in allocation.py), "
+        "that every new cell carries a value-preserving copy of the parent's occupancy map, that every cut is guarded by a "
+        "not-fixed test, that cut indices subscript their own boundary list, that the constructor always runs the all-pairs "
+        "overlap check and the area/centre computation, and that the two cut loops mirror each other. With C18 (a split tiles its "
+        "operand) this gives tiling/area/centroid conservation algebraically. Not decided: numeric equality up to round-off.",
+        _NOTE, "CONSUME-ALL dataflow + dominating-guard facts + INDEX-OF typing + MIRROR", "DESIGN.md 6/C02"),
+    "C03": (
+        "Static decision of the initial allocation's structure: cells = refinable + fixed regions with empty maps; create_squares "
+        "dominates every read of module rectangles; the ratio is sum over all module rectangles of area_overlap(cell, r) / area "
+        "of the same cell (in allocator and detector); fixed cells get {module: 1.0}, are skipped by the general loop, and the "
+        "detector asserts the two-sided ~0/~1 test and the per-module count; an entry is recorded iff include_zero or ratio > 0; "
+        "the default square has side sqrt(area) at the module centre. Not decided: the overlap value itself (C18).",
+        _NOTE, "canonical-form LAW checks + CFG must-precede + dominating-guard facts", "DESIGN.md 6/C03"),
+    "C12": (
+        "Static decision that must_be_refined's per-cell predicate is syntactically (canonical form) the predicate under which "
+        "refine splits, that depth/levels arithmetic is +1/-1 with base case levels == 0 entered only with levels > 0, that "
+        "uniform refinement asks for max depth - depth levels, that split() halves the longer side, that each griddify loop "
+        "covers all interior boundaries of its own list under the not-fixed/cuttable(1%) guard, and that the decision is pure. "
+        "Not decided: nothing numeric is involved beyond the h > w comparison.",
+        _NOTE, "PRED-EQ on canonical forms + CCP path table + LOOP-COVER + effect scan", "DESIGN.md 6/C12"),
     "C06": (
         "Static decision of the structural clauses of orthogon recognition: find_location is tabulated by path-sensitive "
         "constant propagation (overlap pre-check dominates; one abutment + one extent test per side; table closed under "
@@ -37,7 +68,7 @@ CLAIMED = {
 _PENDING = "rule set under construction in this round (see DESIGN.md section 6 for the planned structural clauses)"
 
 NOT_APPLICABLE = {
-    "C01": _PENDING, "C02": _PENDING, "C03": _PENDING, "C04": _PENDING, "C05": _PENDING, "C07": _PENDING,
-    "C08": _PENDING, "C09": _PENDING, "C10": _PENDING, "C12": _PENDING, "C13": _PENDING, "C14": _PENDING,
+    "C04": _PENDING, "C05": _PENDING, "C07": _PENDING,
+    "C08": _PENDING, "C09": _PENDING, "C10": _PENDING, "C13": _PENDING, "C14": _PENDING,
     "C15": _PENDING, "C16": _PENDING, "C17": _PENDING, "C19": _PENDING, "C20": _PENDING,
 }
